@@ -248,6 +248,24 @@ func execCase(c core.Case) []string {
 			default:
 				out = append(out, "dup")
 			}
+		case "pvalidate":
+			// the glue the reactor runs on a part from the wire: ToProto -> PartFromProto (= ValidateBasic)
+			part := &types.Part{Index: 0, Bytes: unhx(m["bytes"]), Proof: parseProof(m)}
+			err := part.ValidateBasic()
+			if pb, e2 := part.ToProto(); e2 == nil {
+				if _, e3 := types.PartFromProto(pb); (e3 == nil) != (err == nil) {
+					out = append(out, "DIFF:PartFromProto-vs-ValidateBasic")
+					break
+				}
+			}
+			switch {
+			case err == nil:
+				out = append(out, "ok")
+			case strings.Contains(err.Error(), "too big"):
+				out = append(out, "err-too-big")
+			default:
+				out = append(out, "err-proof")
+			}
 		case "done":
 			c := ps.IsComplete()
 			b := "?"
@@ -661,6 +679,14 @@ func genHuge(r *rand.Rand, emit func(core.Case), n int) {
 				mutHist["part-extended"]++
 			}
 			ops = append(ops, addOp(i, pt.Bytes, p))
+			ops = append(ops, strings.Replace(addOp(i, pt.Bytes, p), "add idx=", "pvalidate x=", 1))
+			if r.Intn(3) == 0 { // more aunts than MaxAunts
+				q := cloneProof(&pt.Proof)
+				for len(q.Aunts) <= 100+r.Intn(3) {
+					q.Aunts = append(q.Aunts, rbytes(r, 32))
+				}
+				ops = append(ops, strings.Replace(addOp(i, pt.Bytes[:r.Intn(10)+1], q), "add idx=", "pvalidate x=", 1))
+			}
 		}
 		ops = append(ops, "done")
 		emit(core.Case{Kind: "huge", Ops: ops})
@@ -810,6 +836,9 @@ func genPartSet(r *rand.Rand, emit func(core.Case), n int) {
 				mutHist["slot+1,index+1,total+1"]++
 			}
 			ops = append(ops, addOp(idx, b, p))
+			if r.Intn(4) == 0 {
+				ops = append(ops, strings.Replace(addOp(idx, b, p), "add idx=", "pvalidate x=", 1))
+			}
 			if r.Intn(6) == 0 {
 				ops = append(ops, "done")
 			}
